@@ -19,7 +19,9 @@ F64 = z3.Float64()
 
 class SymFloat:
     _symx_symbolic = True
-    __hash__ = None
+
+    def __hash__(self):
+        return 0x5F10A7
 
     def __float__(self):
         raise Unsupported("float() of a symbolic float")
@@ -194,6 +196,9 @@ class SymReal(SymFloat):
 
     def __init__(self, e):
         self.e = e
+        c = core._CTX
+        if c is not None and c.logic == "QF_BV":
+            c.upgrade_solver()
 
     def _symx_key(self):
         return ("r", self.e.get_id())
@@ -328,6 +333,9 @@ class SymFP(SymFloat):
 
     def __init__(self, e):
         self.e = e
+        c = core._CTX
+        if c is not None and c.logic == "QF_BV":
+            c.upgrade_solver()
 
     def _symx_key(self):
         return ("fp", self.e.get_id())
@@ -421,6 +429,27 @@ class SymFP(SymFloat):
 
     def __ne__(self, o):
         return self._cmp(o, "ne")
+
+
+def to_int(x):
+    """int(x) for the module-level `int` shim: identity on SymInt, truncation for SymFP."""
+    if isinstance(x, SymInt):
+        return x
+    if isinstance(x, SymFP):
+        w = ctx().width
+        bvx = z3.fpToSBV(z3.RTZ(), x.e, z3.BitVecSort(w))
+        # value range unknown a priori: bound by the double range that fits the working width
+        lim = 1 << (w - 2)
+        if bool(mkbool(z3.Or(z3.fpIsNaN(x.e), z3.fpIsInf(x.e)))):
+            raise ValueError("cannot convert float NaN/inf to integer")
+        if bool(mkbool(z3.Or(z3.fpGEQ(x.e, z3.FPVal(float(lim), F64)), z3.fpLEQ(x.e, z3.FPVal(float(-lim), F64))))):
+            raise Unsupported("int() of a float outside the working width")
+        return core.mk(bvx, -lim, lim)
+    if isinstance(x, SymFInt):
+        return x.i
+    if isinstance(x, SymFloat):
+        raise Unsupported("int() of %s" % type(x).__name__)
+    return int(x)
 
 
 def int_truediv_fp(a, b):
